@@ -126,7 +126,7 @@ pub fn run(tier: &str, seed: u64) -> i32 {
         in five lists also holds a non-mapping entry (scalar, sequence, null). Oracle: validate() is Ok(true) exactly \
         when matches() is true for every positive and false for every negative and no entry is malformed; otherwise \
         it is an Err of kind Validation whose text names the marker of every failing example and of no passing one; \
-        never a panic. Non-trivial: at least one failing and one passing example in the same rule; distinct by rule \
+        never a panic. Malformed entries include tagged values that are not mappings. Non-trivial: at least one failing and one passing example in the same rule; distinct by rule \
         text."
         .into();
     let findings = load_findings();
